@@ -5,12 +5,13 @@ m·x/(4π|x|³) (three `HasDerivAt` computations); the straight current segment:
 `current_polyline_Hfield` (normalisation, foot point, all three branches of the sinθ case split,
 direction) equals the Biot–Savart line integral over the segment for every observer off the
 carrier line (`segment_is_biot_savart`, via the antiderivative, the fundamental theorem of
-calculus and an affine substitution — Lemmas/SegmentBS.lean); Sphere = ⅔J inside / dipole outside
+calculus and an affine substitution — Lemmas/SegmentBS.lean); the Circle on its axis
+(`circle_on_axis_is_biot_savart`: the wrapper's on-axis branch is the loop integral); Sphere = ⅔J inside / dipole outside
 with the textbook interface conditions (C13, C14); the wrappers add exactly the interior
 polarization term (C02); the frame change global↔local is a rigid motion (C03).
 /- FULL: for every class the closed form equals its defining surface / line integral.  Not shown:
    (b) Cuboid, Triangle (hence
-   Tetrahedron, TriangularMesh): iterated one-variable integrals of the same kind; (c) Circle,
+   Tetrahedron, TriangularMesh): iterated one-variable integrals of the same kind; (c) Circle off its axis,
    Cylinder, CylinderSegment: need Bulirsch cel/el3 theory absent from Mathlib.  For all classes
    the quadrature oracle integrates the defining integral numerically against the real code. -/
 -/
@@ -147,4 +148,57 @@ theorem integral_seg_pos (d a b : ℝ) (hd : 0 < d) (hab : a < b) :
 
 example : (0 : ℝ) / (1^2 * Real.sqrt (0^2 + 1^2)) < 1 / (1^2 * Real.sqrt (1^2 + 1^2)) :=
   seg_antiderivative_strictMono 1 one_pos one_pos
+/-- the Biot–Savart integrand `dl × r / |r|³` of a circular loop of radius `r0` in the plane z = 0, at loop angle `φ`, for
+an observer `(0, 0, z)` on the axis: `dl = r0 (−sin φ, cos φ, 0) dφ`, `r = (0,0,z) − r0 (cos φ, sin φ, 0)` -/
+noncomputable def loopIntegrandAxis (r0 z φ : ℝ) : V3 ℝ :=
+  let dl : V3 ℝ := ⟨r0 * (-Real.sin φ), r0 * Real.cos φ, 0⟩
+  let r : V3 ℝ := ⟨0 - r0 * Real.cos φ, 0 - r0 * Real.sin φ, z - 0⟩
+  vd (V3.cross dl r) (Kern.norm r ^ 3)
+
+theorem loopIntegrandAxis_eq (r0 z φ : ℝ) :
+    loopIntegrandAxis r0 z φ =
+      vd ⟨r0 * z * Real.cos φ, r0 * z * Real.sin φ, r0 * r0⟩ (Real.sqrt (r0 * r0 + z * z) ^ 3) := by
+  have hsc := Real.sin_sq_add_cos_sq φ
+  unfold loopIntegrandAxis
+  have hn : Kern.norm (⟨0 - r0 * Real.cos φ, 0 - r0 * Real.sin φ, z - 0⟩ : V3 ℝ) = Real.sqrt (r0 * r0 + z * z) := by
+    simp only [Kern.norm, sqrt_real]
+    congr 1
+    nlinarith [hsc]
+  simp only [hn]
+  congr 1
+  apply V3.ext' <;> simp only [V3.cross] <;> nlinarith [hsc]
+
+/-- **C01 (Circle, on the axis)**: the value `BHJM_circle` returns for an observer on the loop's axis (its `mask3`
+branch: `H = (0, 0, r0² / (z² + r0²)^{3/2} · I / 2)`) is the Biot–Savart integral `I/(4π) ∮ dl × r / |r|³` over the loop. -/
+theorem circle_on_axis_is_biot_savart (fuel : Nat) (d cur z : ℝ) (hd : d ≠ 0) :
+    bhjmCircle fuel .H d cur ⟨0, 0, z⟩ = some (vs (cur / (4 * Real.pi))
+      ⟨∫ φ in (0:ℝ)..(2 * Real.pi), (loopIntegrandAxis |d / 2| z φ).x,
+       ∫ φ in (0:ℝ)..(2 * Real.pi), (loopIntegrandAxis |d / 2| z φ).y,
+       ∫ φ in (0:ℝ)..(2 * Real.pi), (loopIntegrandAxis |d / 2| z φ).z⟩) := by
+  have hr0 : |d / 2| ≠ 0 := by simpa using hd
+  have hpos : 0 < |d / 2| * |d / 2| + z * z := by
+    have h1 : 0 < |d / 2| := abs_pos.mpr (div_ne_zero hd (two_ne_zero))
+    nlinarith [mul_pos h1 h1, mul_self_nonneg z]
+  set r0 := |d / 2| with hr0def
+  set s := Real.sqrt (r0 * r0 + z * z) with hs
+  have hs0 : 0 < s := Real.sqrt_pos.mpr hpos
+  have hss : s * s = r0 * r0 + z * z := Real.mul_self_sqrt hpos.le
+  simp only [loopIntegrandAxis_eq, vd]
+  rw [intervalIntegral.integral_div, intervalIntegral.integral_div, intervalIntegral.integral_div]
+  rw [intervalIntegral.integral_const_mul, intervalIntegral.integral_const_mul, intervalIntegral.integral_const]
+  rw [integral_cos, integral_sin]
+  simp only [Real.sin_two_pi, Real.sin_zero, Real.cos_two_pi, Real.cos_zero, sub_self, mul_zero, zero_div, sub_zero, smul_eq_mul]
+  -- the model side: on-axis branch
+  simp only [bhjmCircle, sqrt_real, abs_real, eq0_real, n, ofNat_real, Nat.cast_ofNat, Nat.cast_zero, Nat.cast_one, mul_zero, add_zero,
+    Real.sqrt_zero, decide_true, if_true, ← hr0def, hr0, decide_false, Bool.false_eq_true, if_false]
+  congr 1
+  have hpi : Real.pi ≠ 0 := Real.pi_ne_zero
+  apply V3.ext' <;> simp only [vs]
+  · ring
+  · ring
+  · rw [show z * z + r0 * r0 = r0 * r0 + z * z by ring, ← hs]
+    have : s ^ 3 = (r0 * r0 + z * z) * s := by rw [← hss]; ring
+    rw [this]
+    field_simp
+    ring
 end MagpyVerif.C01
